@@ -1144,7 +1144,7 @@ class CodeGen:
         self.step({"kind": "snark_call", "desc": {"op": "snark_call"}})
 
     # -- qaptools sub-circuits (C12) -----------------------------------------------------------
-    SUBQAP_RET = {0: 1, 1: 1, 2: 2, 3: 1, 4: 1, 5: 1, 6: 2, 7: 0, 8: 1}
+    SUBQAP_RET = {0: 1, 1: 1, 2: 2, 3: 1, 4: 1, 5: 1, 6: 2, 7: 0, 8: 1, 9: 1, 10: 2, 11: 1}
 
     def subqap_defs(self):
         for k, f in enumerate(self.plan.get("subqaps", [])):
@@ -1178,6 +1178,16 @@ class CodeGen:
                     self.emit("return %s * vI0" % a0)
                 else:
                     self.emit("return vI0 * %s" % a0)
+            elif t == 9:
+                # the first argument is a boolean-typed secret (the call site passes a comparison result)
+                self.emit("return %s * %s + %s" % (a0, a1, a1))
+            elif t == 10:
+                # a boolean-typed and an integer result
+                self.emit("return [(%s == %s), %s * %s]" % (a0, a1, a0, a1))
+            elif t == 11:
+                # the body checks its arguments and may raise (the caller catches it and goes on)
+                self.emit("%s.assert_lt(%s)" % (a0, a1))
+                self.emit("return %s * %s" % (a0, a1))
             elif t == 7:
                 # neither secret arguments nor secret results: a self-contained side condition
                 self.emit("s = PrivVal(%d)" % (2 + k))
@@ -1203,7 +1213,10 @@ class CodeGen:
         fns = self.plan.get("subqaps", [])
         k = s["fn"] % len(fns)
         f = fns[k]
-        args = ", ".join(self.var("I", a["ref"]) for a in s["args"][:f["nargs"]])
+        argl = [self.var("I", a["ref"]) for a in s["args"][:f["nargs"]]]
+        if f["tmpl"] == 9:
+            argl[0] = "(%s == %s)" % (argl[0], self.var("I", s["args"][2]["ref"]))
+        args = ", ".join(argl)
         fb = self.var("I", 0)
         nm = self.new_var("I")
         self.origin[nm] = {"op": "subqap_call"}
@@ -1211,6 +1224,8 @@ class CodeGen:
             self.emit("_r = _sq%d(%s)" % (k, args))
             if self.SUBQAP_RET[f["tmpl"]] == 0:
                 self.emit("%s = %s" % (nm, fb))      # (the function returns a plain value)
+            elif f["tmpl"] == 10:
+                self.emit("%s = _r[0] + _r[1]" % nm)
             else:
                 self.emit("%s = _r[0] if isinstance(_r, list) else _r" % nm)
         self.wrap_try(s, body, "%s = %s" % (nm, fb))
